@@ -223,6 +223,11 @@ func modeC01(e *Env) {
 			// wider tables: more than 8 columns with partial images (bitmap bytes of table width and image width differ)
 			g.MaxCols = 20
 			g.MaxUnits = 4
+			if i%12 == 5 {
+				g.ExactCols = 9 + e.R.Intn(12)
+				g.SparseImages = true
+				g.MaxUnits = 8
+			}
 		}
 		if i%6 == 2 {
 			// table widths at the byte boundaries of the presence / NULL bitmaps
@@ -824,7 +829,8 @@ func modeC08(e *Env) {
 		cfg := cfgs[e.R.Intn(len(cfgs))]
 		l := &Log{Cfg: cfg}
 		t := &Table{ID: 300, DB: "dz", Name: "tz"}
-		for c, col := range []Col{colTimestampOld(), colTimestamp2(e.R.Intn(7)), colTimestamp2(0), colTimestamp2(6), colDateTime2(3), colInt("long", false)} {
+		for c, col := range []Col{colTimestampOld(), colTimestamp2(e.R.Intn(7)), colTimestamp2(0), colTimestamp2(6), colDateTime2(3), colDateTime2(0),
+			colDateTime2(e.R.Intn(7)), colDateTimeOld(), colDate(), colTime2(0), colInt("long", false)} {
 			col.Name = "z" + itoa(c)
 			col.Nullable = true
 			t.Cols = append(t.Cols, col)
@@ -840,6 +846,9 @@ func modeC08(e *Env) {
 				for ci := range t.Cols {
 					c := &t.Cols[ci]
 					raw := genCell(e.R, c, 10)
+					if c.Typ != 7 && c.Typ != 17 && c.Typ != 3 && e.R.Intn(2) == 0 {
+						raw = zeroValue(c) // zero dates / datetimes / times of every encoding, again and again
+					}
 					if c.Typ == 7 || c.Typ == 17 {
 						if e.R.Intn(2) == 0 {
 							raw[0], raw[1], raw[2], raw[3] = 0, 0, 0, 0 // the zero timestamp
